@@ -407,6 +407,9 @@ def facts_of(R):
     F['poll_next_takes_backpressure'] = count(r'core\.backpressure_release_notify\.take\(\)', pn) == 2
     F['poll_next_stores_waker'] = bool(re.search(r'else\s*\{\s*let\s+notify_backpressure\s*=\s*core\.backpressure_release_notify\.take\(\)\s*;\s*core\.notify\s*=\s*Some\(context\.waker\(\)\.clone\(\)\)', pn))
     pd = re.search(r'impl<Item>\s+Drop\s+for\s+PipeStream<Item>\s*\{(.*?)\n\}', pipe, flags=re.S)
+    # PipeStream::drop wakes the producer (notify_stream_closed) BEFORE it queues the disposal of the pipe's strong reference, both inside
+    # the stream-core section (no early unlock): with the other order the reference can die while the closing poll still needs the lock
+    F['stream_drop_wakes_before_dispose'] = bool(pd and re.search(r'core\.notify_stream_closed\.take\(\)\.map\([^;]*\)\s*;\s*self\.on_drop\.take\(\)\.map\(', pd.group(1)) and not re.search(r'drop\(core\)', pd.group(1)))
     F['stream_drop_closes_and_wakes'] = bool(pd and re.search(r'core\.pending\s*=\s*VecDeque::new\(\)\s*;\s*core\.closed\s*=\s*true\s*;\s*core\.notify_stream_closed\.take\(\)\.map\(', pd.group(1)))
     pc = find_fn(pipe, 'poll', 'fact:pipe_context_poll', impl='PipeContext')
     F['pipe_context_weak_upgrade'] = bool(re.search(r'if\s+let\s+Some\(target\)\s*=\s*arc_self\.target\.upgrade\(\)', pc))
